@@ -16,7 +16,8 @@ META = {
         'alias free (R1, all enum classes of the package; thorough: all JSON tables of the dependency), the width '
         'read equals the width written for every factory / vector / fallback class (R3), unknown items are kept or '
         'rejected but never dropped (R4) and integer-typed enum fields are written with the width they are read '
-        'with (R5, from the C01 layouts).'),
+        'with (R5, from the C01 layouts).'
+        ' R6: GREASE tables equal RFC 8701 and the classification decision is a table lookup or arithmetic that agrees with the RFC sets for every code of the width (tabulated). R7: no lenient decoding of wire bytes outside error reporting.'),
     'assumptions': ['enum.Enum aliasing semantics: two members with one value are one member',
                     'protocol-assigned shared numbers are listed in sa/specs/aliases.json with their reference'],
     'trusted_base': ['python ast', 'sa.model enum tables', 'cryptodatahub *.json tables', 'sa/specs/aliases.json'],
